@@ -140,7 +140,7 @@ fn mode_of(s: Option<&String>) -> &'static str {
 /// One run in a worker: returns the JSON record sent to the coordinator.
 fn run_one(env: &Env, idx: u64) -> Value {
     let mut rng = Rng::derive(env.seed, env.tag, idx);
-    let w = work::generate(&mut rng, &env.pools, env.mode);
+    let w = work::generate_for(&mut rng, &env.pools, env.mode, idx);
     let (fail, ex) = match env.refs.ensure(&w) {
         Err(f) => (Some(f), None),
         Ok(()) => {
@@ -162,7 +162,7 @@ fn run_one(env: &Env, idx: u64) -> Value {
                 fo.u64(*a);
                 fo.u64(*t);
             }
-            let nontrivial = ex.schedule.context_switches() >= 2 && (st.contended_first_use > 0 || threads_first.len() >= 2 || st.short_reads + st.eintr_reads > 0 || st.probe_yields > 0);
+            let nontrivial = ex.schedule.context_switches() >= 2 && (st.contended_first_use > 0 || threads_first.len() >= 2 || st.short_reads + st.eintr_reads > 0 || st.probe_yields > 0 || st.stalls + st.holds > 0);
             let unwound = o.results.iter().flatten().filter(|r| r.contains("PANIC: ")).count();
             rec["nontrivial"] = json!(nontrivial);
             rec["unwound"] = json!(unwound);
@@ -170,6 +170,7 @@ fn run_one(env: &Env, idx: u64) -> Value {
                 "probe_hits": st.probe_hits, "probe_yields": st.probe_yields, "lazy_forces": st.lazy_forces, "once_calls": st.once_calls,
                 "tables_first_used": st.first_use_order.len(), "first_use_threads": threads_first.len(), "contended": st.contended_first_use,
                 "short_reads": st.short_reads, "eintr_reads": st.eintr_reads, "reads": st.reads, "clock_jumps": st.clock_jumps, "clock_reads": st.clock_reads, "dep_atomic_ops": st.dep_atomic_ops,
+                "fn_entries": st.fn_entries, "stalls": st.stalls, "holds": st.holds, "stall_switches": st.stall_switches,
                 "state_sig": simcore::mix(st.interleaving_sig, ex.schedule.context_switches() as u64), "first_use_sig": fo.0,
             });
         }
@@ -207,10 +208,13 @@ fn worker(args: &[String]) -> i32 {
     }
     // interleaved static sharding: worker w executes idx = w, w + W, ... Whatever W is, the set of
     // executed runs is 0..runs (up to the first violation), and each run is a function of idx only.
-    let mut idx = w;
+    // positions runs..runs+extra are the stall runs, idx = STALL_BASE + k
+    let extra: u64 = std::env::var("VERIF_E2_STALL_RUNS").ok().and_then(|s| s.parse().ok()).unwrap_or(0);
+    let mut pos = w;
     let mut stop_at = u64::MAX;
-    while idx < runs {
-        if idx % (8 * nw) == w {
+    while pos < runs + extra {
+        let idx = if pos < runs { pos } else { work::STALL_BASE + (pos - runs) };
+        if pos % (8 * nw) == w {
             if let Ok(s) = std::fs::read_to_string(&stopfile) {
                 if let Ok(v) = s.trim().parse::<u64>() {
                     stop_at = stop_at.min(v);
@@ -230,7 +234,7 @@ fn worker(args: &[String]) -> i32 {
         if viol {
             stop_at = stop_at.min(idx);
         }
-        idx += nw;
+        pos += nw;
     }
     let mut o = out.lock();
     let _ = writeln!(o, "{}", json!({"done": true, "reference_executions": env.refs.executions.load(std::sync::atomic::Ordering::Relaxed)}));
@@ -258,7 +262,7 @@ fn main() {
             let mode = mode_of(args.get(2));
             let runs: u64 = args.get(3).and_then(|s| s.parse().ok()).unwrap_or(64);
             let env = make_env(mode);
-            for idx in 0..runs {
+            for idx in (0..runs).chain(work::STALL_BASE..work::STALL_BASE + runs / 8) {
                 let rec = run_one(&env, idx);
                 println!("{idx} {:016x} steps={} {}", rec["fp"].as_u64().unwrap_or(0), rec["steps"], rec.get("violation").map(|v| v["class"].to_string()).unwrap_or_else(|| "ok".into()));
             }
@@ -268,7 +272,7 @@ fn main() {
             let idx: u64 = args.get(3).and_then(|s| s.parse().ok()).unwrap_or(0);
             let env = make_env(mode);
             let mut rng = Rng::derive(env.seed, env.tag, idx);
-            let w = work::generate(&mut rng, &env.pools, env.mode);
+            let w = work::generate_for(&mut rng, &env.pools, env.mode, idx);
             println!("{}", serde_json::to_string_pretty(&w).unwrap());
         }
         "opstime" => {
@@ -277,7 +281,7 @@ fn main() {
             let idx: u64 = args.get(3).and_then(|s| s.parse().ok()).unwrap_or(0);
             let env = make_env(mode);
             let mut rng = Rng::derive(env.seed, env.tag, idx);
-            let w = work::generate(&mut rng, &env.pools, env.mode);
+            let w = work::generate_for(&mut rng, &env.pools, env.mode, idx);
             for op in w.threads.iter().flatten() {
                 let t0 = Instant::now();
                 let mut one = w.clone();
@@ -322,6 +326,8 @@ fn batch(mode: &'static str, tier: &str) -> i32 {
             _ => 3_000,
         },
     );
+    // extra runs with the slow-or-stalled-thread fault (work::STALL_BASE): an eighth on top of every tier
+    let stall_runs = simcore::env_u64("VERIF_STALL_RUNS", runs / 8);
     let nw = simcore::workers().max(1) as u64;
     let t0 = Instant::now();
     let stopfile = simcore::verif_root().join("target").join(format!("e2-stop-{}-{}", mode, std::process::id()));
@@ -343,6 +349,7 @@ fn batch(mode: &'static str, tier: &str) -> i32 {
                 let mut child = match Command::new(exe)
                     .args(["worker", mode, &runs.to_string(), &w.to_string(), &nw.to_string(), &stopfile.display().to_string()])
                     .env("VERIF_E2_POOLS", pools_file.as_os_str())
+                    .env("VERIF_E2_STALL_RUNS", stall_runs.to_string())
                     .stdin(Stdio::null())
                     .stdout(Stdio::piped())
                     .stderr(Stdio::null())
@@ -398,7 +405,7 @@ fn batch(mode: &'static str, tier: &str) -> i32 {
     // different worker count) re-executes the first runs; fingerprints must be identical
     if agg.violations.is_empty() {
         let n = runs.min(if tier == "thorough" { 128 } else { 32 });
-        let out = Command::new(&exe).args(["worker", mode, &n.to_string(), "0", "1", "/nonexistent-stopfile"]).env("VERIF_E2_POOLS", &pools_file).stdin(Stdio::null()).stderr(Stdio::null()).output();
+        let out = Command::new(&exe).args(["worker", mode, &n.to_string(), "0", "1", "/nonexistent-stopfile"]).env("VERIF_E2_POOLS", &pools_file).env("VERIF_E2_STALL_RUNS", stall_runs.min(16).to_string()).stdin(Stdio::null()).stderr(Stdio::null()).output();
         match out {
             Ok(o) => {
                 let mut fps = std::collections::BTreeMap::new();
@@ -409,7 +416,7 @@ fn batch(mode: &'static str, tier: &str) -> i32 {
                         }
                     }
                 }
-                agg.low_fps.retain(|k, _| *k < n);
+                agg.low_fps.retain(|k, _| *k < n || *k >= work::STALL_BASE);
                 agg.recheck_determinism(|idx| fps.get(&idx).copied().unwrap_or(0));
             }
             Err(e) => {
@@ -420,7 +427,8 @@ fn batch(mode: &'static str, tier: &str) -> i32 {
     }
     agg.probes.declare(oh_verif_rt::PROBE_SITES);
     agg.probes.declare(&["executions_with_contended_first_use", "executions_with_first_use_on_2plus_threads", "probe_yields_taken", "lazy_forces", "once_calls", "tables_first_used"]);
-    agg.faults.declare(&["contended_first_use", "decoder_short_read", "decoder_interrupted_read", "evaluation_unwound_and_caught", "simulated_clock_jump"]);
+    agg.faults.declare(&["contended_first_use", "decoder_short_read", "decoder_interrupted_read", "evaluation_unwound_and_caught", "simulated_clock_jump", "thread_stalled_at_function_entry", "thread_stalled_while_holding_a_lock"]);
+    agg.probes.declare(&["function_entries_seen_in_stall_runs", "stall_runs"]);
     agg.probes.declare(&["library_read_the_clock"]);
     let wall = t0.elapsed().as_secs_f64();
     let pools_info = pools_info.into_inner().unwrap().unwrap_or(Value::Null);
@@ -468,6 +476,9 @@ fn fold(rec: &Value, agg: &mut Agg, first_use: &Mutex<std::collections::BTreeSet
     let fp = rec["fp"].as_u64().unwrap_or(0);
     let nontrivial = rec["nontrivial"].as_bool().unwrap_or(false);
     agg.note_run(idx, fp, nontrivial);
+    if (work::STALL_BASE..work::STALL_BASE + 16).contains(&idx) {
+        agg.low_fps.insert(idx, fp);
+    }
     agg.sim.add("scheduler_steps", rec["steps"].as_u64().unwrap_or(0));
     agg.sim.add("context_switches", rec["switches"].as_u64().unwrap_or(0));
     let st = &rec["stats"];
@@ -497,6 +508,13 @@ fn fold(rec: &Value, agg: &mut Agg, first_use: &Mutex<std::collections::BTreeSet
         agg.faults.add("evaluation_unwound_and_caught", rec["unwound"].as_u64().unwrap_or(0));
         agg.sim.add("decoder_read_calls", g("reads"));
         agg.faults.add("simulated_clock_jump", g("clock_jumps"));
+        agg.faults.add("thread_stalled_at_function_entry", g("stalls"));
+        agg.faults.add("thread_stalled_while_holding_a_lock", g("holds"));
+        agg.sim.add("context_switches_spent_in_stalls", g("stall_switches"));
+        agg.probes.add("function_entries_seen_in_stall_runs", g("fn_entries"));
+        if idx >= work::STALL_BASE {
+            agg.probes.hit("stall_runs");
+        }
         agg.probes.add("library_read_the_clock", g("clock_reads"));
         agg.sim.add("scheduling_points_at_dependency_globals", g("dep_atomic_ops"));
         agg.states.insert(g("state_sig"));
